@@ -221,6 +221,9 @@ def run_cli_case(impl, case, workdir, timeout=20, cover=False):
             # process a private mount namespace with a scratch directory bound over /root
             home = os.path.join(d, "@home"); os.makedirs(os.path.join(home, ".hranoprovod"))
             open(os.path.join(home, ".hranoprovod", "config"), "wb").write(cfg_file_text(case["files"]["@default-config"]["cfg"]))
+            if os.path.realpath(cmd[0]).startswith("/root/"):
+                # the binary itself lives under /root (a snapshot run): the bind mount would hide it
+                hrp = os.path.join(d, "@hr"); shutil.copy2(cmd[0], hrp); cmd[0] = hrp
             inner = "mount --bind %s /root && cd %s && exec \"$@\"" % (sh_quote(home), sh_quote(d))
             cmd = ["unshare", "-m", "sh", "-c", inner, "sh"] + cmd
         try:
